@@ -177,10 +177,10 @@ def in_child(fn, hard_s: float):
 
 def check(hyps, goal, extra=(), want_model=True, try_cvc5=True, rlimit=RLIMIT, post=None) -> Result:
     """stage 0  in-process z3 with a small budget (discharges the bulk of the VCs in milliseconds)
-       stage 1  race of external solvers on the exported text, hard wall limit
-       stage 2  only if still open and a counterexample is wanted: in-process z3 in a forked child (hard limit) to
-                obtain the candidate counter-model; `post(model)` runs in the child and its JSON-able result is
-                returned in Result.model (a dict)."""
+       stage 1  the same solver with the full resource budget in a forked child under a hard wall limit; if a
+                counterexample is wanted, `post(model)` runs in the child and its JSON-able result is kept
+       stage 2  race of external solvers on the exported text (z3 command line with and without preprocessing,
+                several seeds; cvc5), hard wall limit; the first `unsat` wins"""
     t0 = time.time()
     s = make_solver(min(RLIMIT_QUICK, rlimit), timeout_ms=STAGE0_TLIMIT_MS)
     _load(s, hyps, goal, extra)
@@ -190,7 +190,15 @@ def check(hyps, goal, extra=(), want_model=True, try_cvc5=True, rlimit=RLIMIT, p
     reason = s.reason_unknown() if r == z3.unknown else "sat"
     first_status = "sat" if r == z3.sat else "unknown"
     smt2 = s.to_smt2()
+    cexd = None
     if r != z3.sat:
+        o = in_child(lambda: _stage1(hyps, goal, extra, rlimit, want_model and post is not None, post), STAGE1_TLIMIT_S + 5)
+        if o is not None:
+            if o["r"] == "unsat":
+                return Result("unsat", "z3", time.time() - t0)
+            if o.get("cex") is not None or o.get("cex_error"):
+                cexd = {"cex": o.get("cex"), "cex_error": o.get("cex_error")}
+            reason = o.get("reason") or reason
         winner = race(smt2, try_cvc5)
         if winner:
             return Result("unsat", winner, time.time() - t0)
@@ -202,22 +210,13 @@ def check(hyps, goal, extra=(), want_model=True, try_cvc5=True, rlimit=RLIMIT, p
             except z3.Z3Exception:
                 model = None
         else:
-            cexd = None
-            if r != z3.unknown or "incomplete" in reason:
-                # the quick run ended with a candidate model: extract in place (cheap)
+            if cexd is None:
                 try:
                     cexd = {"cex": post(s.model()), "cex_error": None}
                 except z3.Z3Exception:
                     cexd = None
                 except Exception as err:
                     cexd = {"cex": None, "cex_error": repr(err)}
-            if cexd is None:
-                o = in_child(lambda: _stage1(hyps, goal, extra, rlimit, True, post), STAGE1_TLIMIT_S + 5)
-                if o is not None:
-                    if o["r"] == "unsat":
-                        return Result("unsat", "z3", time.time() - t0)
-                    cexd = {"cex": o.get("cex"), "cex_error": o.get("cex_error")}
-                    reason = o.get("reason") or reason
             model = cexd
     return Result(first_status, "z3", time.time() - t0, model, reason)
 
@@ -243,6 +242,12 @@ def race(smt2: str, try_cvc5=True, limit_s=None):
                     [exe, f"-T:{limit_s}", f"rlimit={RLIMIT_CLI}", "smt.mbqi=false", "smt.auto_config=false",
                      "smt.qi.eager_threshold=100", f"smt.random_seed={seed}", zp],
                     stdout=subprocess.PIPE, stderr=subprocess.DEVNULL, text=True)
+        if exe:
+            # the SMT core without the default preprocessing (what the in-process solver does), larger budget
+            zp2 = tmp(ztext.replace("(check-sat)", "(check-sat-using smt)"))
+            procs["z3-cli(smt)"] = subprocess.Popen(
+                [exe, f"-T:{limit_s}", f"rlimit={RLIMIT_CLI}", "smt.mbqi=false", "smt.auto_config=false",
+                 "smt.qi.eager_threshold=100", zp2], stdout=subprocess.PIPE, stderr=subprocess.DEVNULL, text=True)
         if try_cvc5 and os.path.exists(CVC5):
             cp = tmp("(set-logic ALL)\n" + smt2)
             procs["cvc5"] = subprocess.Popen([CVC5, "--tlimit=%d" % (limit_s * 1000), cp],
